@@ -3,6 +3,7 @@ monitors every functools-memoised value, and extracts the skeleton the Coq theor
 
   purity_C06.py info                 stdin {"reactions": [...]}          -> topology tables etc.
   purity_C06.py fresh                stdin {"cfg": {...}}                -> digest of ONE canonical build
+  purity_C06.py freshbatch           stdin {"cfgs": [[key, cfg], ...]}   -> one canonical build per forked child
   purity_C06.py hist                 stdin {"histories": [...], "monitor": bool} -> one JSON line per history
   purity_C06.py skeleton <out.v>     probes -> Skel_C06.v + facts JSON
 
@@ -250,6 +251,9 @@ def permuted(topology):
     return out
 
 
+INFO: dict = {}  # name -> tables computed once by the `info` mode in ANOTHER process
+
+
 class RInfo:
     def __init__(self, name: str):
         self.name = name
@@ -262,6 +266,18 @@ class RInfo:
         self.canonical = "canonical" in (r0.formalism or "")
         self.resonances = sorted(r0.get_intermediate_particles().names)
         self.universe, self.base, self.perms = [], [], []
+        self.rdigest = [None, None]
+        if name in INFO:
+            # rebuild the topology tables from data: no ampform function runs before the first operation
+            from qrules.topology import Edge, Topology  # noqa: PLC0415
+
+            inf = INFO[name]
+            self.base, self.perms = inf["base"], inf["perms"]
+            for uni in inf["universe"]:
+                self.universe.append([Topology(nodes=frozenset(t["nodes"]),
+                                               edges={int(i): Edge(e[0], e[1]) for i, e in t["edges"].items()})
+                                      for t in uni])
+            return
         for r in self.variants:
             b = ampform.get_builder(r)
             base = list(b.adapter.registered_topologies)
@@ -273,7 +289,6 @@ class RInfo:
             self.universe.append([uni[k] for k in keys])
             self.base.append(sorted(keys.index(topo_key(t)) for t in base))
             self.perms.append([sorted({keys.index(topo_key(p)) for p in permuted(uni[k])}) for k in keys])
-        self.rdigest = [None, None]
 
     def reaction_digest(self, v: int) -> str:
         if self.rdigest[v] is None:
@@ -298,6 +313,14 @@ def digest_model(m, ri: RInfo, variant: int) -> dict:
     out["parameter_defaults"] = [[str(k), h(sp.srepr(k) + "=" + repr(v))] for k, v in m.parameter_defaults.items()]
     out["kinematic_variables"] = [[str(k), h(sp.srepr(k) + "=" + sp.srepr(v))] for k, v in m.kinematic_variables.items()]
     out["components"] = [[str(k), h(repr(k) + "=" + sp.srepr(v))] for k, v in m.components.items()]
+    from ampform.helicity.naming import natural_sorting  # noqa: PLC0415
+
+    for attr, names in (("amplitudes", [str(k) for k in m.amplitudes]),
+                        ("kinematic_variables", [k.name for k in m.kinematic_variables]),
+                        ("components", list(m.components))):
+        keys = [repr((natural_sorting(n), n)) for n in names]
+        if len(set(keys)) != len(keys):  # the sorting converter's key is not injective on this dictionary
+            out.setdefault("_ties", []).append(attr)
     same = m.reaction_info is ri.variants[variant] or m.reaction_info == ri.variants[variant]
     out["reaction_info"] = [["", ri.reaction_digest(variant) if same else h(repr(m.reaction_info))]]
     return out
@@ -429,7 +452,7 @@ def forked(fn, *args):
 
 # ---------------------------------------------------------------------------------------
 # skeleton extraction
-PROBE_REACTIONS = ["jpsi_ksp_hel", "lc_pkpi_can"]
+PROBE_REACTIONS = ["jpsi_ksp_hel", "jpsi_gpipi_f2_can"]
 
 
 def probe_histories() -> list:
@@ -561,14 +584,29 @@ def main():
             ri = rinfo(name)
             out[name] = {"canonical": ri.canonical, "n_res": len(ri.resonances), "base": ri.base,
                          "perms": ri.perms, "n_topos": [len(u) for u in ri.universe],
-                         "n_final": len(ri.variants[0].final_state)}
+                         "n_final": len(ri.variants[0].final_state),
+                         "universe": [[{"nodes": sorted(t.nodes),
+                                        "edges": {str(i): [e.originating_node_id, e.ending_node_id]
+                                                  for i, e in t.edges.items()}} for t in u]
+                                      for u in ri.universe]}
         print(json.dumps(out))
     elif mode == "fresh":
         req = json.load(sys.stdin)
+        INFO.update(req.get("info") or {})
         _, dig = build_canonical(req["cfg"])
         print(json.dumps({"digest": dig}))
+    elif mode == "freshbatch":
+        # each configuration is built in a forked child of this interpreter, which has only IMPORTED
+        # ampform (no builder, empty memo tables): process state == a fresh interpreter after import
+        req = json.load(sys.stdin)
+        INFO.update(req.get("info") or {})
+        for k, cfg in req["cfgs"]:
+            res = forked(lambda c=cfg: {"digest": build_canonical(c)[1]})
+            res["key"] = k
+            print(json.dumps(res), flush=True)
     elif mode == "hist":
         req = json.load(sys.stdin)
+        INFO.update(req.get("info") or {})
         if req.get("monitor"):
             install_define_symbols_observer()
         for hist in req["histories"]:
